@@ -109,6 +109,7 @@ def DELETES(M):
         ('nothing', lambda: S.select(lambda s: s.a > 100), lambda s: False),
         ('through a reference', lambda: S.select(lambda s: s.group.level > 0), lambda s: s.group is not None and (s.group.level or 0) > 0),
         ('keyword filter', lambda: S.select().filter(a=2), lambda s: s.a == 2),
+        ('through a reference, with plain conditions', lambda: S.select(lambda s: s.group.level > 0 and s.b > 0).filter(lambda s: s.a < 3), lambda s: s.group is not None and (s.group.level or 0) > 0 and s.b > 0 and s.a < 3),
         ('aggregate over a collection', lambda: S.select(lambda s: orm.count(s.courses) > 1), lambda s: len(s.courses) > 1),
         ('keyword filter then aggregate', lambda: S.select().filter(a=2).filter(lambda s: orm.count(s.courses) > 1), lambda s: s.a == 2 and len(s.courses) > 1),
         ('aggregate of an attribute of the collection', lambda: S.select(lambda s: orm.max(s.courses.credits) > 0 and s.b > 1), lambda s: s.b > 1 and any(c.credits > 0 for c in s.courses)),
